@@ -26,7 +26,7 @@ RUNS = {'quick': 320, 'thorough': 4800}
 RULE = ('runs generated from the seed: a database world and a pool of genomes (plain + gzip files, signature files of sub-collections); then 6-12 dist commands with drawn '
         'query side (-q repeated / --ql + --qdir / --qs), reference side (-r / --rl + --rdir / --rs / --use-db / --square), -k/-p given (matching) or absent, -c, progress, '
         'pool completion policy and OpenMP hand-out. Header, row labels, row order and every cell text are checked against the two-signature distance of the reference '
-        'executions rounded to four decimals. A case is (query channel, reference channel, sizes, k/p given, cores, completion order); non-trivial = at least 2 files parsed or cores>=2.')
+        'executions rounded to four decimals. A case is (query channel, reference channel, sizes, k/p given, cores, completion order); non-trivial = at least 2 files parsed or cores>=2. Further drawn dimensions: injected faults (fail-or-fully-correct), failing commands as context, homonym files, symlinked inputs, multi-member gzip, path-like stored ids, big-endian signature files (refuse-or-correct), list files without a base directory, decoy working directory, tuning-knob defaults, python -O in every fourth run.')
 STATES_MEASURE = 'distinct OpenMP schedule signatures of whole commands'
 
 REAL = ['click command gambit dist, option handling, label derivation', 'calc_file_signatures for both sides', 'jaccarddist_matrix / jaccarddist_pairwise + compiled kernel',
